@@ -188,10 +188,11 @@ class Context(object):
         return None
 
     # ---------------------------------------------------------------- sharding
-    def map(self, module, func, tasks, timeout=900, workers=None):
+    def map(self, module, func, tasks, timeout=900, workers=None, python_flags=()):
         """Run ``module.func(task)`` for every task in worker subprocesses; returns list of results
-        (same order).  A dead / timed-out worker makes the check inconclusive."""
-        return run_tasks(self, module, func, tasks, timeout=timeout, workers=workers)
+        (same order).  A dead / timed-out worker makes the check inconclusive.  python_flags: interpreter flags of the
+        workers, e.g. ("-O",) to run the code under test (and the monitors) with assert statements switched off."""
+        return run_tasks(self, module, func, tasks, timeout=timeout, workers=workers, python_flags=python_flags)
 
 
 class Partial(object):
@@ -259,7 +260,7 @@ def n_workers():
     return max(1, min(16, n))
 
 
-def run_tasks(ctx, module, func, tasks, timeout=900, workers=None):
+def run_tasks(ctx, module, func, tasks, timeout=900, workers=None, python_flags=()):
     tasks = list(tasks)
     if not tasks:
         return []
@@ -280,7 +281,7 @@ def run_tasks(ctx, module, func, tasks, timeout=900, workers=None):
                     break
                 if proc is None or proc.poll() is not None:
                     proc = subprocess.Popen(
-                        [PYTHON, "-X", "faulthandler", "-m", "vlib.worker", module, func],
+                        [PYTHON, "-X", "faulthandler"] + list(python_flags) + ["-m", "vlib.worker", module, func],
                         stdin=subprocess.PIPE,
                         stdout=subprocess.PIPE,
                         stderr=subprocess.PIPE if os.environ.get("VERIF_QUIET_WORKERS", "1") == "1" else None,
